@@ -120,7 +120,7 @@ func runC13(r *RunCtx) error {
 				rt = ratios{80, 8, 12}
 			}
 		}
-		denom := PickOne(p, []string{"ujkl", "ujkl", "", "umint"})
+		denom := PickOne(p, []string{"ujkl", "ujkl", "", "umint", "uJKL", "factory/Jackal/ujkl"}) // the SDK allows capitals and slashes in a denomination
 		params.MintDenom = denom
 		eff := denom
 		if eff == "" {
@@ -345,6 +345,16 @@ func c13UpgradeChains(r *RunCtx) error {
 				from[name] = rv // a module whose consensus version was raised since: its migrations run at the upgrade
 			}
 		}
+		// the last chain replays the upgrade that brought jklmint to its current version: its last in-place migration
+		// runs again (from consensus version - 1) and installs the parameters it installs; the schedule, the record
+		// and the split by the stored ratios to the stored stipend address hold through it like through any block
+		replay := c == nch-1
+		if replay {
+			if v := from[minttypes.ModuleName]; v > 1 {
+				from[minttypes.ModuleName] = v - 1
+			}
+			r.Hist("upgrade-chain", "replays-the-last-jklmint-migration")
+		}
 		uk.SetModuleVersionMap(e.Ctx, from)
 		before := 3 + p.Intn(r.Scale(6, 20))
 		after := 2 + p.Intn(6)
@@ -363,8 +373,15 @@ func c13UpgradeChains(r *RunCtx) error {
 		lastEm := int64(-1)
 		halted := false
 		trace := []map[string]interface{}{}
+		denom := "ujkl"
 		for b := 0; b < before+after; b++ {
-			s0 := e.Supply("ujkl")
+			if e.Height == changeAt && c%2 == 1 {
+				// ... and, on every second chain, re-denominates the emission: the schedule goes on from the last amount
+				denom = PickOne(p, []string{"umint", "uJKL"})
+				_ = mss.Update(e.Ctx, minttypes.KeyMintDenom, []byte(fmt.Sprintf("%q", denom)))
+				r.Hist("upgrade-chain", "denomination-changed-by-governance")
+			}
+			s0 := e.Supply(denom)
 			if e.Height == changeAt {
 				q := func(v int64) []byte { return []byte(fmt.Sprintf("%q", fmt.Sprint(v))) }
 				_ = mss.Update(e.Ctx, minttypes.KeyStakerRatio, q(newRatios[0]))
@@ -372,7 +389,7 @@ func c13UpgradeChains(r *RunCtx) error {
 				_ = mss.Update(e.Ctx, minttypes.KeyProviderRatio, q(newRatios[2]))
 				r.Hist("upgrade-chain", "ratios-changed-by-governance")
 			}
-			dev0, stip0 := e.Bal(devAcct, "ujkl"), e.Bal(stipAcct, "ujkl")
+			dev0, stip0 := e.Bal(devAcct, denom), e.Bal(stipAcct, denom)
 			if e.Height+1 == upAt { // the node operators switch to the new binary for this block: only it knows the handler
 				uk.SetUpgradeHandler("verif-next", func(ctx sdk.Context, _ upgradetypes.Plan, fromVM module.VersionMap) (module.VersionMap, error) {
 					return mm.RunMigrations(ctx, cfg, fromVM)
@@ -387,7 +404,7 @@ func c13UpgradeChains(r *RunCtx) error {
 				halted = true
 				break
 			}
-			em := e.Supply("ujkl") - s0
+			em := e.Supply(denom) - s0
 			desc["emission"] = em
 			var rec *int64
 			if mb, found := e.App.MintKeeper.GetMintedBlock(e.Ctx, e.Height); found {
@@ -414,11 +431,20 @@ func c13UpgradeChains(r *RunCtx) error {
 				return new(big.Int).Div(new(big.Int).Mul(big.NewInt(ratio), big.NewInt(em)), big.NewInt(100)).Int64()
 			}
 			desc["dev_ratio"], desc["provider_ratio"] = dr, pr
+			var cur minttypes.Params
+			mss.GetParamSet(e.Ctx, &cur)
+			stipNow, _ := sdk.AccAddressFromBech32(cur.StorageStipendAddress)
+			if !stipNow.Equals(stipAcct) {
+				// the upgrade installed another stipend address: this block's share went there
+				stip0, stipAcct = 0, stipNow
+				desc["stipend_address_installed_by_the_upgrade"] = cur.StorageStipendAddress
+			}
+			params.MintDecrease = cur.MintDecrease
 			if !stipAcct.Equals(devAcct) {
-				if d := e.Bal(devAcct, "ujkl") - dev0; d != fl(dr) {
+				if d := e.Bal(devAcct, denom) - dev0; d != fl(dr) {
 					bad("C13/split-wrong", fmt.Sprintf("developer grants received %d of emission %d at height %d, the stored ratio %d%% gives %d", d, em, e.Height, dr, fl(dr)))
 				}
-				if d := e.Bal(stipAcct, "ujkl") - stip0; d != fl(pr) {
+				if d := e.Bal(stipAcct, denom) - stip0; d != fl(pr) {
 					bad("C13/split-wrong", fmt.Sprintf("the storage stipend address received %d of emission %d at height %d, the stored ratio %d%% gives %d", d, em, e.Height, pr, fl(pr)))
 				}
 			}
